@@ -55,7 +55,7 @@ fn splits(s: &str, n: usize, r: &mut Rng) -> Vec<String> {
     out
 }
 
-const BASES: &[&str] = &["abc", "aébc", "a,b", "ab\u{ff}c", "a\"b\\c", "xx", "a\nb", "123"];
+const BASES: &[&str] = &["abc", "aébc", "a,b", "ab\u{ff}c", "a\"b\\c", "xx", "a\nb", "123", "a\u{1f}b\u{1f}", "\u{0}a\u{0}", "ÿÿ", "a\u{fffd}\u{ff}b", " a "];
 
 fn gen_plan(seed: u64) -> AliasPlan {
     let mut r = Rng::new(seed, 1);
